@@ -21,9 +21,13 @@ Definition C16_cte_encoder : Prop := forall history es,
 Definition C16_cache : Prop := forall dynamic history t,
   run_reused cache_init (cache_call dynamic) history t = run_fresh cache_init (cache_call dynamic) t.
 
+(* the type caches again, over a table of types that may refer to themselves (Model/Reuse.v 5c) *)
+Definition C16_cache_graph : Prop := forall tb history op,
+  run_reused gcache_init (gcache_call tb) history op = run_fresh gcache_init (gcache_call tb) op.
+
 (* The whole property: it holds for every kind of instance. *)
 Definition C16_full : Prop :=
-  C16_rules /\ C16_reader /\ C16_cbe_encoder /\ C16_cte_encoder /\ C16_cache.
+  C16_rules /\ C16_reader /\ C16_cbe_encoder /\ C16_cte_encoder /\ C16_cache /\ C16_cache_graph.
 
 (* ---- rules validator: holds.  Context.Reset leaves recordTypeName, markerID and the
    array sub-state behind; no rule reads any of them before it has been written
@@ -66,6 +70,14 @@ Theorem C16_cache_reuse : forall dynamic history t,
 Proof. exact cache_reuse. Qed.
 Print Assumptions C16_cache_reuse.
 
+(* ---- type caches over SELF-REFERENTIAL types: violated.  The iterator of *T is finished
+   while T is still in progress and keeps T's placeholder; when T then fails (unsupported
+   field), *T stays in the session's map.  Witness: Marshal(T{}) fails, then
+   Marshal of a nil *T is answered by the reused marshaler and refused by a fresh one. ---- *)
+Theorem C16_cache_graph_refuted : ~ C16_cache_graph.
+Proof. exact cache_graph_refuted. Qed.
+Print Assumptions C16_cache_graph_refuted.
+
 (* ---- the owners: an unmarshaler (builder session + CBE reader + validator) and
    the marshalers (iterator session + encoder); their answer is determined by
    the answers of their parts ---- *)
@@ -86,8 +98,9 @@ Theorem C16_cbe_marshaler_reuse : forall history op,
 Proof. exact cbe_marshaler_reuse. Qed.
 Print Assumptions C16_cbe_marshaler_reuse.
 
-(* ---- the full property is violated only by the CTE encoder, when it is fed a
-   stream that does not begin with OnBeginDocument (its reset point) ---- *)
+(* ---- the full property is violated by the CTE encoder, when it is fed a stream that
+   does not begin with OnBeginDocument (its reset point), and by the type caches on
+   self-referential types with an unsupported field ---- *)
 Theorem C16_full_refuted : ~ C16_full.
 Proof. exact full_refuted. Qed.
 Print Assumptions C16_full_refuted.
@@ -113,6 +126,13 @@ Proof. exact cbe_enc_witness. Qed.
 
 Example C16_ex_cte_header : has_header [CBegin; CVersion 0; CList; CPosInt 1; CEndContainer; CEndDoc].
 Proof. exists 0, [CList; CPosInt 1; CEndContainer; CEndDoc]. reflexivity. Qed.
+
+(* the pinned witness of the type-cycle violation: struct T { Next *T; Bad chan int } *)
+Example C16_ex_cache_cycle_witness :
+  run_all (gcache_call tb_cycle) gcache_init [(1, v_T0); (2, v_nilptr); (2, v_ptrT0); (1, v_T0)] = [CErr; COk; CErr; CErr] /\
+  run_fresh gcache_init (gcache_call tb_cycle) (2, v_nilptr) = CErr /\
+  g_map (fst (gcache_call tb_cycle gcache_init (1, v_T0))) = [(2, 2)].
+Proof. exact gcache_cycle_witness. Qed.
 
 Example C16_ex_cache_after_failure :
   run_all (cache_call true) cache_init [TBad 1; TBad 1; TComp 2 [(true, TLeaf 3); (true, TBad 1)]; TLeaf 3]
